@@ -4,11 +4,11 @@
       statements closed by [exact]; proofs live in [Proofs/Dynamic2.v].
 
       Same reading as [Properties/C09.v]: every theorem is relative to the
-      premise [sifting_ok] (definition restated in [C09_sifting_ok_def]),
+      premise [sifting_ok'] (definition restated in [C09_sifting_ok'_def]),
       for a manager satisfying [Inv] with exact counts for the ledger [L]
       of references held by the user, called at nesting depth 0
       ([rctx s = false]); reference operands are valid and held
-      ([ref_by L s]), names are declared.  Conclusion, whichever node
+      ([heldn L]), names are declared.  Conclusion, whichever node
       creation the request fires at (or if it does not fire): no signal
       reaches the caller (the only other outcome is the model's oracle error
       inside sifting), the result denotes the stated function BY NAME
@@ -48,7 +48,7 @@ Theorem C09b_let_ok_def L s d :
   match d with
   | LetBool d => Forall (fun p => is_Some (vars s !! p.1)) d
   | LetRef d =>
-      Forall (fun p => is_Some (vars s !! p.1) ∧ valid s p.2 ∧ ref_by L s (absn p.2)) d
+      Forall (fun p => is_Some (vars s !! p.1) ∧ valid s p.2 ∧ heldn L (absn p.2)) d
   | LetName d => ∀ x y, (x, y) ∈ d → is_Some (vars s !! y)
   end.
 Proof. exact (conj (fun H => H) (fun H => H)). Qed.
@@ -57,16 +57,16 @@ Proof. exact (conj (fun H => H) (fun H => H)). Qed.
     substitution runs [_compose], any other number [_vector_compose]; one
     statement covers both *)
 Theorem C09b_compose_dynamic s L f var_sub r s' :
-  sifting_ok →
+  sifting_ok' →
   Inv s → Counts s L → rctx s = false →
-  valid s f → ref_by L s (absn f) →
-  Forall (fun p => is_Some (vars s !! p.1) ∧ valid s p.2 ∧ ref_by L s (absn p.2)) var_sub →
+  valid s f → heldn L (absn f) →
+  Forall (fun p => is_Some (vars s !! p.1) ∧ valid s p.2 ∧ heldn L (absn p.2)) var_sub →
   compose f var_sub s = (r, s') →
   r = Err EOracle ∨
   ∃ x, r = Ok x ∧ Inv s' ∧ Counts s' L ∧ rctx s' = false ∧
        (last_len s = None → last_len s' = None) ∧
        (is_Some (last_len s) → is_Some (last_len s')) ∧
-       keeps (ref_by L s) s s' ∧
+       keeps (heldn L) s s' ∧
        valid s' x ∧
        ∀ ρ, denv s' x ρ = denv s f (vsubstv s (list_to_map (reverse var_sub)) ρ).
 Proof. exact (compose_dynamic s L f var_sub r s'). Qed.
@@ -74,16 +74,16 @@ Print Assumptions C09b_compose_dynamic.
 
 (** one substitution [f[v := g]], spelled out *)
 Theorem C09b_compose1_dynamic s L f v g r s' :
-  sifting_ok →
+  sifting_ok' →
   Inv s → Counts s L → rctx s = false →
-  valid s f → ref_by L s (absn f) →
-  is_Some (vars s !! v) → valid s g → ref_by L s (absn g) →
+  valid s f → heldn L (absn f) →
+  is_Some (vars s !! v) → valid s g → heldn L (absn g) →
   compose f [(v, g)] s = (r, s') →
   r = Err EOracle ∨
   ∃ x, r = Ok x ∧ Inv s' ∧ Counts s' L ∧ rctx s' = false ∧
        (last_len s = None → last_len s' = None) ∧
        (is_Some (last_len s) → is_Some (last_len s')) ∧
-       keeps (ref_by L s) s s' ∧
+       keeps (heldn L) s s' ∧
        valid s' x ∧
        ∀ ρ, denv s' x ρ =
             denv s f (fun y => if decide (y = v) then denv s g ρ else ρ y).
@@ -92,16 +92,16 @@ Print Assumptions C09b_compose1_dynamic.
 
 (** ** [rename] ([let] with names): every target name declared *)
 Theorem C09b_rename_dynamic s L u dvars r s' :
-  sifting_ok →
+  sifting_ok' →
   Inv s → Counts s L → rctx s = false →
-  valid s u → ref_by L s (absn u) →
+  valid s u → heldn L (absn u) →
   (∀ x y, (x, y) ∈ dvars → is_Some (vars s !! y)) →
   rename u dvars s = (r, s') →
   r = Err EOracle ∨
   ∃ x, r = Ok x ∧ Inv s' ∧ Counts s' L ∧ rctx s' = false ∧
        (last_len s = None → last_len s' = None) ∧
        (is_Some (last_len s) → is_Some (last_len s')) ∧
-       keeps (ref_by L s) s s' ∧
+       keeps (heldn L) s s' ∧
        valid s' x ∧
        ∀ ρ, denv s' x ρ = denv s u (renv (list_to_map (reverse dvars)) ρ).
 Proof. exact (rename_dynamic s L u dvars r s'). Qed.
@@ -111,7 +111,7 @@ Print Assumptions C09b_rename_dynamic.
     ([var], [apply] -> [ite]) run inside the context of [cube]; a request
     raised in any of them is served by [cube] itself. *)
 Theorem C09b_cube_dynamic s L dvars r s' :
-  sifting_ok →
+  sifting_ok' →
   Inv s → Counts s L → rctx s = false →
   Forall (fun p => is_Some (vars s !! p.1)) dvars →
   cube dvars s = (r, s') →
@@ -119,7 +119,7 @@ Theorem C09b_cube_dynamic s L dvars r s' :
   ∃ x, r = Ok x ∧ Inv s' ∧ Counts s' L ∧ rctx s' = false ∧
        (last_len s = None → last_len s' = None) ∧
        (is_Some (last_len s) → is_Some (last_len s')) ∧
-       keeps (ref_by L s) s s' ∧
+       keeps (heldn L) s s' ∧
        valid s' x ∧
        ∀ ρ, denv s' x ρ = true ↔ ∀ v b, (v, b) ∈ dvars → ρ v = b.
 Proof. exact (cube_dynamic s L dvars r s'). Qed.
@@ -130,16 +130,16 @@ Print Assumptions C09b_cube_dynamic.
     [Proofs/Support.v]).  [u] is only read before the decorated [quantify]
     starts and need not be held. *)
 Theorem C09b_apply_quant_dynamic s L op fa u v r s' :
-  sifting_ok →
+  sifting_ok' →
   Inv s → Counts s L → rctx s = false →
   (fa = true ∧ op ∈ ["\A"; "forall"]) ∨ (fa = false ∧ op ∈ ["\E"; "exists"]) →
-  valid s u → valid s v → ref_by L s (absn v) →
+  valid s u → valid s v → heldn L (absn v) →
   apply op u (Some v) None s = (r, s') →
   r = Err EOracle ∨
   ∃ x Q, r = Ok x ∧ Inv s' ∧ Counts s' L ∧ rctx s' = false ∧
        (last_len s = None → last_len s' = None) ∧
        (is_Some (last_len s) → is_Some (last_len s')) ∧
-       keeps (ref_by L s) s s' ∧
+       keeps (heldn L) s s' ∧
        valid s' x ∧
        (∀ y, y ∈ Q ↔ ∃ l, vars s !! y = Some l ∧ depends s u l) ∧
        ∀ ρ, denv s' x ρ = true ↔ qsemv s fa Q v ρ.
@@ -148,15 +148,15 @@ Print Assumptions C09b_apply_quant_dynamic.
 
 (** ** [let]: constants, references, names *)
 Theorem C09b_let_dynamic s L d u r s' :
-  sifting_ok →
+  sifting_ok' →
   Inv s → Counts s L → rctx s = false →
-  valid s u → ref_by L s (absn u) → let_ok L s d →
+  valid s u → heldn L (absn u) → let_ok L s d →
   let_ d u s = (r, s') →
   r = Err EOracle ∨
   ∃ x, r = Ok x ∧ Inv s' ∧ Counts s' L ∧ rctx s' = false ∧
        (last_len s = None → last_len s' = None) ∧
        (is_Some (last_len s) → is_Some (last_len s')) ∧
-       keeps (ref_by L s) s s' ∧
+       keeps (heldn L) s s' ∧
        valid s' x ∧
        ∀ ρ, denv s' x ρ = denv s u (let_sem s d ρ).
 Proof. exact (let_dynamic s L d u r s'). Qed.
